@@ -118,7 +118,7 @@ class Template(abc.ABC):
         if not path.is_dir():
             raise FailedToCreateTemplate(f"Template folder do not exist or is not a directory: {path}")
         
-        for entry in path.iterdir():
+        for entry in sorted(path.iterdir(), key=lambda e: e.name):
             entry_path = subdir.joinpath(entry.name)
             if entry.is_dir():
                 yield from Template.fromdir(basedir, entry_path)
